@@ -468,6 +468,31 @@ theorem skip_sound {s : Store} (hwf : WF s) (idx first : Nat) (ids : List Nat) (
           have hmv := (parent_valid hwf.priors hm).1
           exact ancS_append (hks.2.2 x ⟨m, hm, hback hxm hmv⟩ hle)
 
+/-- Writing a segment never takes an error branch of the model (`Bug`, missing segment, fuel of
+the model's loops): under the hypotheses of `skip_sound`, on a store whose merge segments carry
+their recorded ancestor, `write` succeeds, and the new store has that property again (so, with
+`skip_sound` and `wf_init`, every store built by `write`s from an init segment is well formed and
+every `write` on it succeeds). -/
+theorem write_total {s : Store} (hwf : WF s) (hm : MergeSkips s) (idx first : Nat) (ids : List Nat)
+    (prior : Prior) (lca : Option Loc) (hfresh : s.seg? idx = none)
+    (hprior : ∀ p ∈ prior.toList, s.valid p = true ∧ p.mc < first)
+    (hlca : ∀ l r, prior = .merge l r → ∃ c, lca = some c ∧ Dom s c l r) :
+    ∃ s', s.write idx first ids prior lca = .ok s' ∧ MergeSkips s' := by
+  obtain ⟨skips, hb, hne⟩ := build_total hwf hm prior lca first (fun p hp => (hprior p hp).1)
+    (fun l r h => by obtain ⟨c, hc, hd⟩ := hlca l r h; exact ⟨c, hc, hd.1⟩)
+    (fun n => by obtain ⟨l, hl, _⟩ := boundaries n; exact ⟨l, hl⟩)
+  unfold Store.write
+  rw [hb]
+  refine ⟨_, rfl, ?_⟩
+  intro i g hg l r hp
+  by_cases hi : idx = i
+  · subst hi
+    rw [seg?_append_new (g' := { idx := idx, first := first, ids := ids, prior := prior, skips := skips }) hfresh] at hg
+    cases hg
+    exact hne l r hp
+  · rw [seg?_append_ne (g' := { idx := idx, first := first, ids := ids, prior := prior, skips := skips }) hi] at hg
+    exact hm i g hg l r hp
+
 /-- the first store of a graph (init segment only) is well formed -/
 theorem wf_init (idx : Nat) (ids : List Nat) : WF ⟨[{ idx, first := 0, ids, prior := .none, skips := [] }]⟩ := by
   constructor
